@@ -6,6 +6,7 @@
    in order; bs the committed batches (payloads, seal flag the writer chose).
    layout / parse / rs_* : the README-only encoder / decoder of Fmt/ReadmeSpec.v.
    Guard: the file stays below 2^32 bytes (offsets are uint32 in the format). *)
+From RW Require Import Gen.Source Fmt.SourceTie.
 From RW Require Import Base.Bytes Base.Crc32c Fmt.Frame Fmt.ReadmeSpec Fmt.ReadmeSpecFacts
      Seg.Writer Seg.Reader Seg.SegAbs Seg.ReaderFacts Seg.FormatFacts Gen.Constants.
 Open Scope N_scope.
@@ -115,6 +116,28 @@ Theorem constants_match_readme :
   FileNameProbe = rs_file_name 1234567 11259375.
 Proof. exact FormatFacts.constants_match_readme. Qed.
 Print Assumptions constants_match_readme.
+
+(* translator tie: the unexported constants and the integer functions of
+   segment/format.go, regenerated from the Go source into Gen/Source.v on every
+   run, are the ones the model uses -- for every argument, not a sample *)
+Theorem C09_source_constants :
+  Z.of_N file_header_len = segment_fileHeaderLen /\ Z.of_N frame_header_len = segment_frameHeaderLen /\
+  Z.of_N magic = segment_magic /\ Z.of_N min_buf_size = segment_minBufSize /\ segment_version = 0%Z /\
+  Z.of_N MaxEntrySize = segment_MaxEntrySize /\
+  segment_segmentFileNamePattern = [37; 48; 50; 48; 100; 45; 37; 48; 49; 54; 120; 46; 119; 97; 108]%N /\
+  file_name 1234567 11259375 = FileNameProbe.
+Proof.
+  exact (conj tie_file_header_len (conj tie_frame_header_len (conj tie_magic (conj tie_min_buf_size
+        (conj tie_version (conj tie_max_entry_size (conj tie_file_name_pattern tie_file_name_probe))))))).
+Qed.
+Print Assumptions C09_source_constants.
+
+Theorem C09_source_functions : forall n : N,
+  Z.of_N (pad_len n) = segment_fn_padLen (Z.of_N n) /\
+  Z.of_N (enc_frame_size n) = segment_fn_encodedFrameSize (Z.of_N n) /\
+  Z.of_N (index_frame_size n) = segment_fn_indexFrameSize (Z.of_N n).
+Proof. exact (fun n => conj (tie_pad_len n) (conj (tie_enc_frame_size n) (tie_index_frame_size n))). Qed.
+Print Assumptions C09_source_functions.
 
 (* non-vacuity: a concrete history (two appends, the second one sealing by size,
    then a no-op force-seal) runs, satisfies the guards, and the README decoder
